@@ -6,3 +6,4 @@ pub mod props;
 pub mod refmodel;
 pub mod runner;
 pub mod keymodel;
+pub mod fuzzglue;
